@@ -8,6 +8,7 @@ import (
 	"os"
 	"path/filepath"
 	"runtime"
+	"strings"
 	"sync"
 	"sync/atomic"
 	"time"
@@ -41,6 +42,12 @@ type c05Spec struct {
 	// launches its cycle-1 items and then fails; a second pass starts them successfully.
 	FailStart   []string `json:"fail_start,omitempty"`
 	NeverReturn bool     `json:"never_return,omitempty"`
+	// SlowStop: the first (management) stop is meant to run into the small stop timeout,
+	// because items named slow* only return when the modules.stop.timeout hook fired;
+	// afterwards the stop timeout is set to StopTimeoutMs2 and the driver waits for the
+	// slow items to return before it restarts the module.
+	SlowStop       bool `json:"slow_stop,omitempty"`
+	StopTimeoutMs2 int  `json:"stop_timeout_ms2,omitempty"`
 }
 
 // doneStorm: before any work item is launched, N signalled microtasks of a module are
@@ -64,12 +71,16 @@ type doneStorm struct {
 }
 
 type c05Mod struct {
-	Name        string     `json:"name"`
-	Deps        []string   `json:"deps,omitempty"`
-	StopNil     bool       `json:"stop_nil,omitempty"`
-	StopDelayMs int        `json:"stop_delay_ms"`
-	StopErr     bool       `json:"stop_err,omitempty"`
-	Items       []*c05Item `json:"items"`
+	Name        string   `json:"name"`
+	Deps        []string `json:"deps,omitempty"`
+	StopNil     bool     `json:"stop_nil,omitempty"`
+	StopDelayMs int      `json:"stop_delay_ms"`
+	StopErr     bool     `json:"stop_err,omitempty"`
+	// TriggerOnStopped: the stop routine waits until the named (independent) module is
+	// offline and then triggers that module's p4ev event - while modules that hook it and
+	// are stopped after this one are still online
+	TriggerOnStopped string     `json:"trigger_on_stopped,omitempty"`
+	Items            []*c05Item `json:"items"`
 }
 
 // item kinds
@@ -299,6 +310,20 @@ func (h *c05H) run() {
 			_ = h.driver("Disable:"+n, func() error { h.mods[n].Disable(); return nil })
 		}
 		_ = h.driver("ManageModules", modules.ManageModules)
+		if sp.SlowStop {
+			modules.VerifSetStopTimeout(time.Duration(sp.StopTimeoutMs2) * time.Millisecond)
+			for id := range h.items {
+				if strings.HasPrefix(id, "slow") && !h.lat.wait("item.end|"+id, 10*time.Second) {
+					h.note("slow item %s had not returned 10s after the stop timeout", id)
+				}
+			}
+			time.Sleep(2 * time.Millisecond) // (non-blocking variants: let the decrement follow the end event)
+			for id, it := range h.items {
+				if strings.HasPrefix(id, "slow") && (it.Kind == kWorkerRun || it.Kind == "mt_run_med") {
+					h.lat.wait("item.ret|"+id, 5*time.Second)
+				}
+			}
+		}
 		h.setPhase("p4")
 		h.p4Probes("mid")
 		if sp.Restart {
@@ -420,6 +445,20 @@ func (h *c05H) stopFn(ms *c05Mod) error {
 	}
 	h.log.Rec("scan", ms.Name, "stop", map[string]any{"handed": len(reg), "live": live, "modctx_done": m.Ctx.Err() != nil})
 	h.lat.fire("stopfn.begin|" + ms.Name)
+	if src := h.mods[ms.TriggerOnStopped]; src != nil {
+		for dl := time.Now().Add(3 * time.Second); src.Status() != modules.StatusOffline && time.Now().Before(dl); {
+			time.Sleep(100 * time.Microsecond)
+		}
+		if src.Status() == modules.StatusOffline {
+			h.log.Rec("p4", src.Name, "window", nil)
+			for k := 0; k < 4; k++ { // (a wrongly spawned hook runner still picks at random between "source started" and "source stopping")
+				src.TriggerEvent("p4ev", fmt.Sprintf("window%d", k))
+			}
+			time.Sleep(5 * time.Millisecond)
+		} else {
+			h.note("%s was not offline while %s was stopping", src.Name, ms.Name)
+		}
+	}
 	if ms.StopDelayMs > 0 {
 		time.Sleep(time.Duration(ms.StopDelayMs) * time.Millisecond)
 	}
